@@ -397,6 +397,17 @@ func (f *vFakeVIP) approveOnly(ids map[string]bool) {
 	}
 }
 
+// cosePublicKey: the COSE_Key (EC2, ES256, P-256) encoding a webauthn
+// registration stores for this authenticator.
+func (tok *vSoftU2F) cosePublicKey() []byte {
+	x := tok.key.PublicKey.X.FillBytes(make([]byte, 32))
+	y := tok.key.PublicKey.Y.FillBytes(make([]byte, 32))
+	out := []byte{0xa5, 0x01, 0x02, 0x03, 0x26, 0x20, 0x01, 0x21, 0x58, 0x20}
+	out = append(out, x...)
+	out = append(out, 0x22, 0x58, 0x20)
+	return append(out, y...)
+}
+
 // webauthnAssertion answers a webauthn (navigator.credentials.get) challenge
 // with this U2F token, the way a browser presents a legacy U2F credential
 // (rpIdHash = hash of the AppID, see the appid extension).
